@@ -114,6 +114,47 @@ func runC08(c *Ctx) {
 			} else {
 				r.Pass("publish/announce-then-check", key, f.PosOf(send), "scheduledCount.Add(1) precedes every running check that licenses the send")
 			}
+			// the auto-start is a BARRIER: no Enqueue reads the running flag before the writer was started by
+			// this or an earlier call and that start has completed - sync.Once.Do (every caller waits for the
+			// first) or a direct call of the start function (serialised by its mutex). A "first caller
+			// starts, the others carry on" flag lets a concurrent first Enqueue see running == false and
+			// drop its object although nobody stopped the writer.
+			{
+				isStartCall := func(n ast.Node) bool {
+					c, ok := n.(*ast.CallExpr)
+					return ok && strings.HasSuffix(exprKey(c.Fun), ".startBatchWriter")
+				}
+				isBarrier := func(n ast.Node) bool {
+					c, ok := n.(*ast.CallExpr)
+					if !ok {
+						return false
+					}
+					if isStartCall(c) {
+						return true
+					}
+					se, isSel := ast.Unparen(c.Fun).(*ast.SelectorExpr)
+					if !isSel || se.Sel.Name != "Do" || len(c.Args) != 1 || !strings.HasSuffix(typeName(info.TypeOf(se.X)), "sync.Once") {
+						return false
+					}
+					body, _ := callableBody(p, info, c.Args[0])
+					return body != nil && containsMatch(body, isStartCall)
+				}
+				unbarred := ""
+				var uw []string
+				for _, e := range runTrue {
+					condPt := Point{e.From, len(e.From.Nodes) - 1}
+					if w, found := f.PathFromEntryAvoiding(condPt, isBarrier, nil); found {
+						unbarred, uw = f.PosOf(condPt), w
+					}
+				}
+				if len(runTrue) == 0 {
+					r.Fail("publish/auto-start-is-a-barrier", key, f.PosOf(send), "no running check (vacuous)")
+				} else if unbarred != "" {
+					r.Fail("publish/auto-start-is-a-barrier", key, f.PosOf(send), "the running check at "+unbarred+" can be reached without having waited for the auto-start to complete (a flag that lets only the first caller start the writer does not make the others wait): a concurrent first Enqueue sees running == false and silently drops its object", uw...)
+				} else {
+					r.Pass("publish/auto-start-is-a-barrier", key, f.PosOf(send), "every path to a running check passes the once-guarded (or direct) start of the writer")
+				}
+			}
 			// the duplicate mark: whoever claims it (BatchWriteScheduled() reported "not yet scheduled") is
 			// the goroutine every concurrent duplicate Enqueue relies on - those return at once. After the
 			// claim every path must therefore reach the send; a path that backs out (stopped writer) lets a
